@@ -115,3 +115,52 @@ Section ForeignFile.
     - intros i _. reflexivity.
   Qed.
 End ForeignFile.
+
+(* C02 through the container: the reader is the specification's reference
+   decoder [sd] (no library codec involved on the read side). *)
+Section SpecReader.
+  Variable reg : registry.
+  Variable s : schema.
+  Variable t : option gtype.
+  Variable om : bool.
+  Variable c : codec.
+  Hypothesis Hbuild : build reg s t om = Some c.
+  Variable fuel : nat.
+
+  Definition sd_rr (bs : bytes) : out unit := obind (sd fuel s bs) (fun _ r => Done tt r).
+  Definition sd_rv (bs : bytes) : option datum := match sd fuel s bs with Done d _ => Some d | _ => None end.
+
+  (* r is what the library's codec writes for a value denoting the physical datum d *)
+  Definition written_datum (r : bytes) (d : datum) : Prop :=
+    exists v, datum_of c s v = Some d /\ phys_ok s d /\ c_write c v = Some r /\ (3 * dmax d + 1 <= fuel)%nat.
+
+  Lemma written_datum_decodes r d : written_datum r d ->
+    r = canon_encode s d /\ rec_decodes sd_rr r /\ forall rest, sd_rv (r ++ rest) = Some d.
+  Proof.
+    intros (v & Hd & Hp & Hw & Hf).
+    assert (H : forall rest, r = canon_encode s d /\ sd fuel s (r ++ rest) = Done d rest)
+      by (intros rest; eapply written_is_valid_avro; eauto).
+    split; [exact (proj1 (H []))|]. split; intros rest; [unfold sd_rr|unfold sd_rv]; rewrite (proj2 (H rest)); reflexivity.
+  Qed.
+
+  Variable compress : bytes -> bytes.
+  Variable decompress : bytes -> option bytes.
+  Hypothesis Hdc : forall x, decompress (compress x) = Some x.
+  Variable sync : bytes.
+  Hypothesis Hsync : len sync = 16.
+
+  Theorem file_is_valid_avro : forall schema_json codec_name size ops bfuel,
+    len schema_json < two63 -> len codec_name < two63 ->
+    Forall (fun r => exists d, written_datum r d) (recs_of ops) ->
+    Forall (group_small compress) (fst (blocks_spec size [] (ops ++ [OpFlush]))) ->
+    (length (fst (blocks_spec size [] (ops ++ [OpFlush]))) < bfuel)%nat ->
+    exists body,
+      read_header (concat (file_chunks compress schema_json codec_name sync size (ops ++ [OpFlush])))
+        = Some ({| h_meta := written_meta schema_json codec_name; h_sync := sync |}, body) /\
+      read_blocks decompress sd_rr (fun _ => None) bfuel sync 0 body = (length (recs_of ops), FOk).
+  Proof.
+    intros sj cn size ops bfuel Hs Hc Hw Hsm Hf.
+    apply (file_roundtrip compress decompress Hdc sd_rr sync Hsync); try assumption.
+    eapply Forall_impl; [|exact Hw]. intros r (d & Hr). exact (proj1 (proj2 (written_datum_decodes r d Hr))).
+  Qed.
+End SpecReader.
